@@ -195,7 +195,7 @@ class Run(object):
         box, ev = STARTER.submit(w.startService)
         if not ev.wait(T): self.problem("start", "startService did not return"); raise Abort()
         if box[0][0] == "raised": self.problem("start", "startService raised %r" % (box[0][1],)); raise Abort()
-        self.started = True
+        self.started = True; self.stop_requested = False
         self.new_threads = [t for t in threading.enumerate() if t not in before and t not in d.callers]
         offered = []; entered = 0; exited = 0; stopped = False
         comp = {"ev": threading.Event(), "exits": None}
@@ -214,7 +214,7 @@ class Run(object):
 
         def do_stop():
             nonlocal stopped
-            stopped = True
+            stopped = True; self.stop_requested = True
             def on_done(_r):
                 with d.lock: comp["exits"] = list(d.exits[x0:]); comp["alive"] = [e[1].name for e in d.entries[self.cyc_e0:] if e[1].is_alive() and e[1] not in d.callers]
                 comp["ev"].set()
@@ -302,7 +302,7 @@ class Run(object):
             self.problem("single_thread", "messages of one start/stop cycle were written on %d threads: %s" % (len(ths), [t.name for t in ths]))
 
     def run(self):
-        self.started = False; self.comp = None
+        self.started = False; self.comp = None; self.stop_requested = False
         try:
             for ci, steps in enumerate(self.sc["cycles"]):
                 self.cycle = ci
@@ -319,7 +319,7 @@ class Run(object):
     def teardown(self):
         d = self.dest; d.open_gates()
         if self.started:
-            if self.comp is None or not getattr(self, "stop_box", None) and not self.comp["ev"].is_set():
+            if not self.stop_requested:
                 try:
                     box, ev = Worker("c19-cleanup").submit(self.writer.stopService); ev.wait(0.5)
                 except Exception: pass
@@ -526,7 +526,7 @@ def main():
         else:
             scs, info = gen_all(args.tier, args.seed)
             quick = args.tier == "quick"
-            bound = ("single start/stop cycle, exhaustive: every schedule of M<=%d offers and writer steps (a writer step = the parked destination call finishes) followed by stop, x every assignment of offers to <=3 producer threads up to renaming, x every failure mask (%d scenarios); "
+            bound = ("single start/stop cycle, exhaustive: every schedule of M<=%d offers and writer steps (a writer step = the parked destination call finishes) followed by stop, x every assignment of offers to <=3 producer threads (<=2 when M=4) up to renaming, x every failure mask (%d scenarios); "
                      "%d sampled schedules with M=%d; %d of those schedules replayed as 2nd/3rd cycle of a reused writer; %d random scenarios of 2-%d cycles (<=5 messages, <=3 producers each); %d random single cycles with <=10 messages and 4 producers; "
                      "%d probes with BaseException-only exceptions; %d stress runs with 2-4 unsynchronised producers x up to %d messages x 1-3 cycles; 19 Exception classes; offers by direct call and via eliot.log_message"
                      ) % (3 if quick else 4, info["A"], info["A2"], 4 if quick else 5, info["B"], info["C"], 4 if quick else 6, info["D"], info["E"], info["F"], 120 if quick else 600)
@@ -555,6 +555,11 @@ def main():
         threading.excepthook = old_hook
         try: remove_destination(sink)
         except Exception as e: err("cleanup:", e)
+    try:
+        from eliot import Logger
+        left = [x for x in getattr(Logger._destinations, "_destinations", []) if isinstance(x, ThreadedWriter) or x is sink]
+        if left and not fails: err("c19: WARNING destinations left registered: %r" % (left,))
+    except Exception as e: err("cleanup check:", e)
     err("c19: %d cases in %.1fs" % (cases, time.monotonic() - t0))
     print(json.dumps({"cases": cases, "distinct": len(seen), "failures": fails, "known": known, "bound": bound,
                       "rule": "a scenario = start/stop cycles on one ThreadedWriter, each an explicit schedule of steps [o|l, producer, exception-or-null] (offer by direct call | via log_message), [w] (writer finishes the parked destination call), [s] (stopService; remaining writes then released one by one); "
